@@ -1,4 +1,5 @@
 import StrettoModel.Proofs.Cache
+import StrettoModel.Proofs.Deadlines
 /-!
 # C03 — TTL visibility: nothing is served after its TTL, nothing expires without one
 
@@ -125,6 +126,98 @@ example : (Store.get { items := [(7, ⟨0, 42, ⟨1000, 5⟩⟩)], em := [] } 7 
           (Store.getTtl { items := [(7, ⟨0, 42, ⟨1000, 5⟩⟩)], em := [] } 7 0 1004) = some (some 1) := by
   decide
 
+-- "since that insert": the deadline in force is the one the write carried ---------------------------
+
+/-- what a lookup serves at time `now` was written under that key with a deadline that has not passed -/
+def Live (t : Time) (now : Nat) : Prop := t.d = 0 ∨ ¬ (now ≥ t.created ∧ now - t.created ≥ t.d)
+
+theorem live_before_deadline (t : Time) (now : Nat) (h : Live t now) (hclock : t.created ≤ now) (hd : t.d ≠ 0) :
+    now < t.created + t.d := by
+  rcases h with h | h
+  · exact absurd h hd
+  · omega
+
+/-- **never served after the TTL given with the value — over every run**: after any run of any actors
+from the builder's state, whatever `get` returns for key `k` at time `now` is a value some call wrote
+under `k`, and the deadline *that write carried* (an insert's own `(ttl, now)`; for a write through
+`get_mut`, the deadline of the entry it overwrote) has not passed at `now` — vetoed re-inserts, other
+keys sharing the second, cleanups, evictions and re-admissions in between notwithstanding. -/
+theorem served_within_the_writers_ttl (su : Nat → Nat → Bool) (cfg : Cfg) (maxCost : Int) (samples : Nat)
+    (acts : List Act) (k cf now v : Nat)
+    (hget : ((Cache.run su (Cache.init cfg maxCost samples) acts).get k cf now).2 = some v) :
+    ∃ t, (k, v, t) ∈ Deadlines.writesExec su (Cache.init cfg maxCost samples) acts ∧ Live t now := by
+  have hp : Deadlines.ProvT (fun _ => true) [] (Cache.init cfg maxCost samples) :=
+    ⟨(fun k e _ he => by simp [Cache.init, Store.empty] at he),
+     (fun k cf cost v exp _ hm => by simp [Cache.init] at hm)⟩
+  have hprov := Deadlines.exec_provT su _ acts [] _ hp
+  simp only [List.nil_append] at hprov
+  generalize Cache.run su (Cache.init cfg maxCost samples) acts = c at hget hprov
+  unfold Cache.get at hget
+  split at hget
+  · cases hget
+  · simp only [Cache.ringPush_store] at hget
+    cases hl : c.store.lookup k cf now with
+    | none => simp [Store.get, hl] at hget
+    | some e =>
+      obtain ⟨he, _, hlive⟩ := Store.lookup_some c.store k cf now e hl
+      have hv : e.val = v := by simpa [Store.get, hl] using hget
+      subst hv
+      exact ⟨e.exp, hprov.resident k e rfl he, hlive⟩
+
+/-- the same for the value `get_mut` hands out, and `get_ttl` reports the time left to the writer's
+deadline -/
+theorem get_mut_within_the_writers_ttl (su : Nat → Nat → Bool) (cfg : Cfg) (maxCost : Int) (samples : Nat)
+    (acts : List Act) (k cf now w old : Nat)
+    (hget : ((Cache.run su (Cache.init cfg maxCost samples) acts).getMutWrite k cf now w).2 = some old) :
+    ∃ t, (k, old, t) ∈ Deadlines.writesExec su (Cache.init cfg maxCost samples) acts ∧ Live t now := by
+  have hp : Deadlines.ProvT (fun _ => true) [] (Cache.init cfg maxCost samples) :=
+    ⟨(fun k e _ he => by simp [Cache.init, Store.empty] at he),
+     (fun k cf cost v exp _ hm => by simp [Cache.init] at hm)⟩
+  have hprov := Deadlines.exec_provT su _ acts [] _ hp
+  simp only [List.nil_append] at hprov
+  generalize Cache.run su (Cache.init cfg maxCost samples) acts = c at hget hprov
+  unfold Cache.getMutWrite at hget
+  split at hget
+  · cases hget
+  · simp only [Cache.ringPush_store] at hget
+    unfold Store.getMutWrite at hget
+    cases hl : c.store.lookup k cf now with
+    | none => simp [hl] at hget
+    | some e =>
+      obtain ⟨he, _, hlive⟩ := Store.lookup_some c.store k cf now e hl
+      have hv : e.val = old := by simpa [hl] using hget
+      subst hv
+      exact ⟨e.exp, hprov.resident k e rfl he, hlive⟩
+
+theorem get_ttl_is_the_writers (su : Nat → Nat → Bool) (cfg : Cfg) (maxCost : Int) (samples : Nat)
+    (acts : List Act) (k cf now : Nat) (r : Option Nat)
+    (hget : (Cache.run su (Cache.init cfg maxCost samples) acts).getTtl k cf now = some r) :
+    ∃ v t, (k, v, t) ∈ Deadlines.writesExec su (Cache.init cfg maxCost samples) acts ∧ Live t now ∧
+      r = t.getTtl now := by
+  have hp : Deadlines.ProvT (fun _ => true) [] (Cache.init cfg maxCost samples) :=
+    ⟨(fun k e _ he => by simp [Cache.init, Store.empty] at he),
+     (fun k cf cost v exp _ hm => by simp [Cache.init] at hm)⟩
+  have hprov := Deadlines.exec_provT su _ acts [] _ hp
+  simp only [List.nil_append] at hprov
+  generalize Cache.run su (Cache.init cfg maxCost samples) acts = c at hget hprov
+  unfold Cache.getTtl Store.getTtl at hget
+  cases hl : c.store.lookup k cf now with
+  | none => simp [hl] at hget
+  | some e =>
+    obtain ⟨he, _, hlive⟩ := Store.lookup_some c.store k cf now e hl
+    simp only [hl, Option.map_some, Option.some.injEq] at hget
+    exact ⟨e.val, e.exp, hprov.resident k e rfl he, hlive, hget.symm⟩
+
+
+-- non-vacuity: a key inserted with a 5 ns TTL at time 10, re-inserted under a vetoing validator with no TTL:
+-- the value served at time 12 is the first one and its writer's deadline (15) has not passed
+def exCfg3 : Cfg := { itemSize := 56, ignoreInternal := false, bufCap := 4, ringCap := 2, pqCap := some 3, metricsOn := false }
+def exActs3 : List Act := [.insert 3 0 77 1 5 10 0 false, .procItem (fun _ => 0) [], .insert 3 0 78 1 0 11 0 false]
+example : ((Cache.run (fun _ _ => false) (Cache.init exCfg3 1000 5) exActs3).get 3 0 12).2 = some 77 := by decide
+example : ((Cache.run (fun _ _ => false) (Cache.init exCfg3 1000 5) exActs3).get 3 0 15).2 = none := by decide
+example : (Deadlines.writesExec (fun _ _ => false) (Cache.init exCfg3 1000 5) exActs3).map
+    (fun p => (p.1, p.2.1, p.2.2.d, p.2.2.created)) = [(3, 77, 5, 10), (3, 78, 0, 11)] := by decide
+
 end Stretto.C03
 
 #print axioms Stretto.C03.expired_invisible
@@ -135,3 +228,6 @@ end Stretto.C03
 #print axioms Stretto.C03.reinsert_replaces_deadline
 #print axioms Stretto.C03.insert_records_now
 #print axioms Stretto.C03.sweep_only_expired
+#print axioms Stretto.C03.served_within_the_writers_ttl
+#print axioms Stretto.C03.get_mut_within_the_writers_ttl
+#print axioms Stretto.C03.get_ttl_is_the_writers
